@@ -306,6 +306,7 @@ impl Engine for C03 {
                                     out.push(Violation::new("T2", "reader-ok-with-wrong-data", format!("read.{path}"), d));
                                 }
                             }
+                            Err(e) if e.starts_with(UNDECODABLE) => out.push(Violation::new("T2", "reader-ok-on-undecodable-input", "read", format!("the delivered bytes are not UTF-8 text ({e}) but read returned Ok"))),
                             Err(_) => st.probe("lenient_accept"),
                         }
                         let io_err = src.stats.fired.iter().any(|k| k.starts_with("eio"));
